@@ -37,6 +37,7 @@ COMPONENTS = {
              'PIL encode/decode'],
     'stub': ['upstream source (position+generation encoding SimSource at the TileManager `sources` seam)',
              'file system + flock (SimFS)', 'clock', 'scheduler choice', 'queue.Queue (SimQueue)'],
+    'outside_the_seams': ['lock-identity cases: two real python subprocesses with different PYTHONHASHSEED (no simulator inside)'],
 }
 ASSUMPTIONS = [
     'lock-identity case: the two interpreters are real subprocesses (fresh python, PYTHONHASHSEED differs); everything else runs '
